@@ -192,7 +192,11 @@ class StereoCondensedReactionGraph(StereoMolGraph, CondensedReactionGraph):
         if stereo_change is None:
             del self._atom_stereo_change[atom]
         else:
-            del self._atom_stereo_change[atom][stereo_change]
+            change_dict = self._atom_stereo_change[atom]
+            del change_dict[stereo_change]
+            if not change_dict:
+                # an entry without any descriptor is no stereo change
+                del self._atom_stereo_change[atom]
 
     def delete_bond_stereo_change(
         self, bond: Iterable[AtomId], stereo_change: Optional[Change] = None
@@ -201,7 +205,11 @@ class StereoCondensedReactionGraph(StereoMolGraph, CondensedReactionGraph):
         if stereo_change is None:
             del self._bond_stereo_change[bond]
         else:
-            del self._bond_stereo_change[bond][stereo_change]
+            change_dict = self._bond_stereo_change[bond]
+            del change_dict[stereo_change]
+            if not change_dict:
+                # an entry without any descriptor is no stereo change
+                del self._bond_stereo_change[bond]
 
     def remove_atom(self, atom: AtomId):
         """Removes an atom from the graph and deletes all stereo information
